@@ -26,7 +26,8 @@ RULE = ("1-3 sample buffers per case, 1-4 frames per buffer: DF17 with correct p
         "reader created by RtlReader() / RtlReader(debug=True) with a stand-in for the missing rtlsdr module; consecutive _process_buffer() calls share the running noise floor. Oracle: the returned hex strings "
         "are exactly the admissible transmitted frames, in order, upper case, right length; every returned DF17 has reference CRC 0. "
         "non-trivial = >= 2 frames of different length, odd start offset, rho > 0.1, or a corrupted DF17 present"
-        ' Also: the noise level is drawn per buffer, the last frame of a buffer may end anywhere up to the buffer end, and complex IQ samples of arbitrary phase are delivered through _read_callback in read-size pieces (leg iq_callback); buffers whose first 6.5-9 ms are packed with strong replies every 400 samples before a quiet stretch and weak frames, and buffers longer than buffer_size (direct call, or two equal reads that overshoot it) with a frame across sample index buffer_size (leg long_buffers); gaps down to one frame length (112 samples behind a short frame); one reader instance over 65 / 650 million samples of dense buffers (leg long_run).')
+        ' Also: the noise level is drawn per buffer, the last frame of a buffer may end anywhere up to the buffer end, and complex IQ samples of arbitrary phase are delivered through _read_callback in read-size pieces (leg iq_callback); buffers whose first 6.5-9 ms are packed with strong replies every 400 samples before a quiet stretch and weak frames, and buffers longer than buffer_size (direct call, or two equal reads that overshoot it) with a frame across sample index buffer_size (leg long_buffers); gaps down to one frame length (112 samples behind a short frame); one reader instance over 65 / 650 million samples of dense buffers (leg long_run).'
+        ' Second signal model (noise also under the pulses, from 14 dB up); corner payloads; the weakest next to the strongest frame; a preamble at sample 0.')
 ASSUMPTIONS = ["noise samples are additionally capped at 0.19: the preamble matcher accepts any sample >= 0.2 as a pulse, so stronger noise could legitimately "
                "look like a preamble and no threshold demodulator could be expected to reject it",
                "frames lie completely inside their buffer", "time stamps returned with the frames are ignored",
